@@ -87,6 +87,12 @@ pub fn run_c18(cx: &mut Cx) {
             let pkb = pk2.to_bytes::<Sch>();
             let skb = sk2.to_bytes::<Sch>();
             let sgb = sig.to_bytes();
+            // and a signature whose v has a leading zero octet
+            let (e0, s0, v0) = crate::scen_sig::sig_parts(&sig);
+            let short_ok = match short_v_variant(&pk2, &e0, &s0, &v0) {
+                Some((e1, s1, v1, _)) => { let sg = crate::scen_sig::sig_from_parts(&e1, &s1, &v1).unwrap(); let back = Signature::<Sch>::from_bytes(&sg.to_bytes()); back == sg && back.verify_multiattr(&pk2, &b2, &[m.clone()]) }
+                None => true,
+            };
             let pk3 = CL03PublicKey::from_bytes::<Sch>(&pkb);
             let sk3 = CL03SecretKey::from_bytes::<Sch>(&skb);
             let sg3 = Signature::<Sch>::from_bytes(&sgb);
@@ -94,13 +100,13 @@ pub fn run_c18(cx: &mut Cx) {
             let skj: CL03SecretKey = serde_json::from_str(&serde_json::to_string(&sk2).unwrap()).unwrap();
             let sgj: Signature<Sch> = serde_json::from_str(&serde_json::to_string(&sig).unwrap()).unwrap();
             let kp: KeyPair<Sch> = serde_json::from_value(serde_json::json!({"public": pk2, "private": sk2})).unwrap();
-            (pk3 == pk2, sk3 == sk2, sg3 == sig, pkj == pk2, skj == sk2, sgj == sig, kp.public_key() == &pk2 && kp.private_key() == &sk2, sg3.verify(&pk3, &b2, &m), pk3.to_bytes::<Sch>() == pkb)
+            (pk3 == pk2, sk3 == sk2, sg3 == sig, pkj == pk2, skj == sk2, sgj == sig, kp.public_key() == &pk2 && kp.private_key() == &sk2, sg3.verify(&pk3, &b2, &m), pk3.to_bytes::<Sch>() == pkb && short_ok)
         }, move |cx, st| {
             cx.eval(&[b"roundtrip", pk.N.to_string_radix(16).as_bytes()], true);
             cx.count("fault.restart_reload");
             match st.out {
                 Ok((true, true, true, true, true, true, true, true, true)) => cx.count("verdict.roundtrip.ok"),
-                Ok(t) => cx.violation("C18", "encoding/roundtrip".into(), format!("(pk bytes, sk bytes, sig bytes, pk json, sk json, sig json, keypair json, decoded-verifies, re-encode) = {t:?}")),
+                Ok(t) => cx.violation("C18", "encoding/roundtrip".into(), format!("(pk bytes, sk bytes, sig bytes, pk json, sk json, sig json, keypair json, decoded-verifies, re-encode and short-v signature bytes) = {t:?}")),
                 Err(c) => cx.violation("C18", "encoding/roundtrip-crash".into(), format!("{c:?}")),
             }
         });
